@@ -36,8 +36,8 @@ def known_match(pid, case, kinds_failed):
     return None
 
 
-def run_sem(pid, tier, seed, replay, gen_fn=None, extra_cov=None):
-    t0 = time.time()
+def run_sem(pid, tier, seed, replay, gen_fn=None, extra_cov=None, t_start=None):
+    t0 = t_start or time.time()
     common.build()
     d = common.workdir("%s-%s" % (pid, tier))
     rng = random.Random(seed * 1000003 + int(pid[1:]))
@@ -138,6 +138,7 @@ STEP_TRACES = {"C04", "C12"}                       # properties whose checks als
 def run(pid, tier, seed, replay):
     if pid in semprops.GENERATORS:
         extra = {}
+        t_start = time.time()
         if not replay:
             import evalmodel
             wd = common.workdir("%s-%s-model" % (pid, tier))
@@ -155,7 +156,7 @@ def run(pid, tier, seed, replay):
                                        "note": "step-level disagreement is model drift (reported as NOTE), never a violation by itself"}
                 extra.setdefault("mode_A_evaluator", {})
                 extra["_add_states"] = (st["distinct"], st["states"])
-        return run_sem(pid, tier, seed, replay, extra_cov=extra)
+        return run_sem(pid, tier, seed, replay, extra_cov=extra, t_start=t_start)
     raise ToolError("no check for %s" % pid)
 
 
